@@ -10,7 +10,7 @@ def _simp_true(g):
     except Exception:
         return False
 
-def prove(goal, pc, side=(), timeout_ms=10000, slice_first=True, extra_allowed=()):
+def prove(goal, pc, side=(), timeout_ms=10000, slice_first=True, extra_allowed=(), fallback=True, full_query=True):
     """returns dict(verdict, model, secs, how)."""
     t0 = time.time()
     if _simp_true(goal):
@@ -22,6 +22,8 @@ def prove(goal, pc, side=(), timeout_ms=10000, slice_first=True, extra_allowed=(
         v, _, dt = sym.check(hyps + [neg], timeout_ms)
         if v == 'unsat':
             return {'verdict': 'unsat', 'model': None, 'secs': time.time() - t0, 'how': 'sliced(%d/%d)' % (len(hyps), len(allpc))}
+    if not full_query:
+        return {'verdict': 'unknown', 'model': None, 'secs': time.time() - t0, 'how': 'sliced-only'}
     v, m, dt = sym.check(allpc + [neg], timeout_ms, want_model=True)
     if v == 'unsat':
         return {'verdict': 'unsat', 'model': None, 'secs': time.time() - t0, 'how': 'full'}
@@ -29,6 +31,7 @@ def prove(goal, pc, side=(), timeout_ms=10000, slice_first=True, extra_allowed=(
         return {'verdict': 'sat', 'model': sym.model_to_dict(m), 'secs': time.time() - t0, 'how': 'full'}
     # unknown: try nlsat tactic explicitly, then give up
     try:
+        if not fallback: raise RuntimeError('no fallback')
         s = z3.Then('simplify', 'purify-arith', 'nlsat').solver()
         s.set('timeout', int(timeout_ms))
         for f in allpc + [neg]: s.add(f)
